@@ -152,8 +152,8 @@ def record_helpers(ctx, rid):
     keyq = pp.params[1]
     sn2 = R.self_name(pp)
     pops = [c for n in g2.stmts() for c in calls_in(n) if isinstance(c.func, ast.Attribute) and c.func.attr == 'pop'
-            and src(c.func.value) in ('%s._constraints[%s]' % (sn2, keyq), '%s._constraints.get(%s)' % (sn2, keyq),
-                                      '%s._constraints.get(%s, [])' % (sn2, keyq))]
+            and src(expand_names(pp.node, c.func.value)) in ('%s._constraints[%s]' % (sn2, keyq), '%s._constraints.get(%s)' % (sn2, keyq),
+                                                             '%s._constraints.get(%s, [])' % (sn2, keyq))]
     others = [c for n in g2.stmts() for c in calls_in(n) if isinstance(c.func, ast.Attribute)
               and c.func.attr in ('remove', 'clear', 'popitem', 'insert') and '_constraints' in src(c.func.value)]
     dels = [n for n in g2.stmts() if isinstance(n, ast.Delete) and '_constraints[%s][' % keyq in src(n)]
@@ -669,7 +669,10 @@ def and_form_premises(ctx, rid, fns):
                             facts += common
             def two_elems(a, b):
                 ma, mb = re.fullmatch(r'(.+)\[(-?\d+)\]', a), re.fullmatch(r'(.+)\[(-?\d+)\]', b)
-                return bool(ma and mb and ma.group(1) == mb.group(1) and ma.group(2) != mb.group(2))
+                if ma and mb and ma.group(1) == mb.group(1) and ma.group(2) != mb.group(2):
+                    return True
+                # two different names unpacked from the items / values of the polynomial
+                return a != b and a.isidentifier() and b.isidentifier()
             opp = any(len(f) == 3 and f[1] == '==' and ((f[0].startswith('-') and two_elems(f[0][1:], f[2])) or
                                                            (f[2].startswith('-') and two_elems(f[2][1:], f[0])) or
                                                            (f[2] == '0' and re.fullmatch(r'(.+\]) \+ (.+\])', f[0]) and
